@@ -72,7 +72,7 @@ func keyOf(d *hx.Disagreement) string {
 func runC19(f *hx.Flags) {
 	impl := &gcImpl{}
 	defer impl.cleanup()
-	r := hx.NewRunner(f, "h-gencommon", impl, "generated Go modules (target package + context + sibling packages imported plainly, under a rename, from a directory whose name differs from its package clause - that one plainly or under an explicit name equal to the directory name (`v2 \"m/odd/v2\"`), to the declared name, or to neither - and a plainly imported package whose declared name repeats the directory or declared name the target file leaves unbound): 2-4 structs with 1-8 methods each, parameters/results from basic, same-package, imported, alias, generic-instance, pointer, slice, array, map, func, variadic, context.Context and error types; parameter names unnamed, _, user-chosen and equal to arg0/ret0/ctx/err/ctx0/err0; embedded structs/pointers/interfaces two levels deep with overlapping method names (unexported only on same-package types); every struct asked with all four option sets. compared per FindInterface call: every method's Signature() text, input and output parameter names, cumulative GetActive() import strings; per struct: go/types' method set of *T vs the Lean selector rule; per module: `go build` of the rendered interfaces with `var _ R = (*T)(nil)`. non-trivial: at least one embedded field or one unnamed parameter list; distinct by request lines. out-of-domain stream (drift only): three embedding levels, packages the target file does not import, chan/struct/interface literal types")
+	r := hx.NewRunner(f, "h-gencommon", impl, "generated Go modules (target package + context + sibling packages imported plainly, under a rename, from a directory whose name differs from its package clause - that one plainly or under an explicit name equal to the directory name (`v2 \"m/odd/v2\"`), to the declared name, or to neither - and a plainly imported package whose declared name repeats the directory or declared name the target file leaves unbound; packages the target file does NOT import are reached through embedded types of sibling packages whose promoted methods mention context / scratch/deep / scratch/third/v3 (`package third`) and through a second file y.go of the target package with its own import set - other packages, other names for the same packages - holding structs, embedded types and their methods): 2-4 structs with 1-8 methods each, parameters/results from basic, same-package, imported, alias, generic-instance, pointer, slice, array, map, func, variadic, context.Context and error types; parameter names unnamed, _, user-chosen and equal to arg0/ret0/ctx/err/ctx0/err0; embedded structs/pointers/interfaces two levels deep with overlapping method names (unexported only on same-package types); every struct asked with all four option sets. compared per FindInterface call: every method's Signature() text, input and output parameter names, cumulative GetActive() import strings; per struct: go/types' method set of *T vs the Lean selector rule; per module: `go build` of the rendered interfaces with `var _ R = (*T)(nil)`. non-trivial: at least one embedded field or one unnamed parameter list; distinct by request lines. out-of-domain stream (drift only): three embedding levels, an unimported package whose declared name the target file binds to another package, chan/struct/interface literal types")
 	r.KeyOf = keyOf
 	r.ShrinkBudget, r.ShrinkMax = 20, 4
 	r.Compare = func(req, a, b string) bool { return a == b || a == "invalid-program" }
